@@ -2363,3 +2363,191 @@ Proof.
     split; [exists [0; 3; 4; 4], 1; split; reflexivity|].
     eexists _, _, _. split; [vm_compute; reflexivity|]. reflexivity.
 Qed.
+
+(* ================================================================== QuanTIS: validity of the new [0-] path *)
+(* quantis_swap_zero tests the finished new [0-] path against the start condition of ITS OWN
+   ensemble (ens_set0["start_cond"], e_scL e0) and ITS OWN interfaces (left interface e_i0 e0,
+   finite with lambda_minus_one): "0-L" unless "L" is an allowed start. *)
+Section QV.
+Variable vpot_of : Z -> option Q.
+Variable expf : Q -> Q.
+
+(* what an accepted quantis_complete determines about the new [0-] path *)
+Lemma quantis_complete_acc_minus e0 e1 tmp0 tmp1 sc streams calls nd p0 p1 st calls' nd' :
+  quantis_complete e0 e1 tmp0 tmp1 sc streams calls nd = Out true p0 p1 st calls' nd' ->
+  exists s2 rest k2,
+    streams = s2 :: rest /\
+    pts (sp_path p0) = rev (firstn k2 s2) ++ tl (pts tmp0) /\
+    (1 <= k2 <= length s2)%nat /\
+    (3 <= plen (sp_path p0) < e_maxlen e0)%nat /\
+    ((k2 < e_maxlen e0 - 1)%nat -> stops_at (e_i0 e0) (e_i2 e0) s2 k2) /\
+    (e_scL e0 = false -> has_L_start_end (sp_path p0) e0 = false).
+Proof.
+  unfold quantis_complete, quantis_complete_g. intros H.
+  destruct (first_frame tmp0) as [t00|] eqn:Et00; [|discriminate].
+  destruct (negb sc); [discriminate|].
+  destruct (engine_call _ _ streams _ true _ _) as [[[back0 str1] c2]|] eqn:E2; [|discriminate].
+  set (new0 := paste back0 tmp0 true (Some (e_maxlen e0))) in *.
+  destruct (Nat.leb_spec (e_maxlen e0) (plen new0)) as [|Hlt0]; [discriminate|].
+  destruct (Nat.ltb_spec (plen new0) 3) as [|Hge0]; [discriminate|].
+  destruct (negb (e_scL e0) && has_L_start_end new0 e0) eqn:EL; [discriminate|]. cbn [is_acc negb] in H.
+  destruct (last_frame tmp1) as [t1l|] eqn:Et1l; [|discriminate].
+  destruct (Z.ltb_spec (ford (copy_frame 0 t1l)) (e_i2 e0)) as [|Hge]; [discriminate|].
+  destruct (engine_call _ _ str1 _ false _ _) as [[[forw1 str2] c3]|] eqn:E3; [|discriminate].
+  set (new1 := paste (reverse 0 tmp1 false) forw1 true (Some (e_maxlen e1))) in *.
+  destruct (start_point new1 _ _) as [sp|]; [|discriminate].
+  destruct (Nat.eqb_spec (plen new1) (e_maxlen e1)) as [|Hne1]; [discriminate|].
+  destruct (Nat.ltb_spec (plen new1) 3) as [|Hge1]; [discriminate|].
+  destruct sp; cbn [negb is_acc] in H; try discriminate.
+  inversion H; subst; clear H. cbn [sp_path].
+  apply engine_call_inv in E2. destruct E2 as (s2 & k2 & -> & Ep2 & _ & _ & Hk2 & Hk2l & _ & Hstop & _).
+  exists s2, str1, k2.
+  split; [reflexivity|].
+  assert (Hp0 : pts new0 = rev (firstn k2 s2) ++ tl (pts tmp0)).
+  { pose proof (paste_pts back0 tmp0 true (e_maxlen e0)) as Hp. fold new0 in Hp. unfold forw_part in Hp. rewrite Ep2 in Hp.
+    rewrite Hp. apply firstn_short. rewrite <- Hp. exact Hlt0. }
+  split; [exact Hp0|]. split; [lia|]. split; [lia|]. split; [exact Hstop|].
+  intros HscL. rewrite HscL in EL. cbn [negb andb] in EL. exact EL.
+Qed.
+
+(* The new [0-] path of an accepted QuanTIS swap is a valid path of the [0-] ensemble (ordered
+   [0-] interfaces, honest first frames): a :: mid ++ [b] with a non-empty interior, a strictly
+   outside [lambda_-1, lambda_0] and — unless "L" is in the start condition OF [0-] — to the right of
+   lambda_0 (a path that left through lambda_-1 is never accepted then), every interior frame
+   inside [lambda_-1, lambda_0], b strictly right of lambda_0. *)
+Theorem quantis_swap_valid_minus e0 e1 b0 b1 old0 old1 streams draws p0 p1 st calls nd :
+  quantis_swap_zero vpot_of expf e0 e1 b0 b1 old0 old1 streams draws = Out true p0 p1 st calls nd ->
+  first_frame_honest streams calls ->
+  e_i0 e0 <= e_i1 e0 <= e_i2 e0 ->
+  exists a mid b, orders (sp_path p0) = a :: mid ++ [b] /\ mid <> [] /\
+    (a < e_i0 e0 \/ e_i2 e0 < a) /\ (e_scL e0 = false -> e_i2 e0 < a) /\
+    (forall o, In o mid -> e_i0 e0 <= o <= e_i2 e0) /\ e_i2 e0 < b.
+Proof.
+  unfold quantis_swap_zero, quantis_swap_zero_g. change (quantis_complete_g true) with quantis_complete.
+  destruct (first_frame (sp_path old1)) as [f10|] eqn:Ef10; [|discriminate].
+  destruct (last2_frame (sp_path old0)) as [f0m2|] eqn:Ef0m2; [|discriminate].
+  destruct (is_none _ || is_none _); [discriminate|].
+  destruct (Z.ltb_spec (ford (copy_frame 0 f10)) (e_i2 e0)) as [HL0|]; [|discriminate].
+  destruct (Z.ltb_spec (ford (copy_frame 0 f0m2)) (e_i2 e0)) as [HL1|]; [|discriminate].
+  cbn [negb orb copy_frame ford] in *.
+  destruct (engine_call _ (empty_path 2 0) streams _ false _ _) as [[[tmp0 str1] c0]|] eqn:E0; [|discriminate].
+  destruct (end_is_R1 tmp0 (e_i2 e0)) eqn:ER0; cbn [negb]; [|discriminate].
+  destruct (engine_call _ (empty_path 2 0) str1 _ false _ _) as [[[tmp1 str2] c1]|] eqn:E1; [|discriminate].
+  destruct (end_is_R1 tmp1 (e_i2 e0)) eqn:ER1; cbn [negb]; [|discriminate].
+  destruct (quantis_energies _ _ _ _ _) as [en|]; [|discriminate].
+  destruct draws as [|u drest]; [discriminate|].
+  intros H Hhon Hord.
+  assert (Hc : quantis_complete e0 e1 tmp0 tmp1 true str2 [c0; c1] 1 = Out true p0 p1 st calls nd).
+  { destruct (e_accept_all e0 || Qle_bool u _); [exact H|discriminate]. }
+  clear H.
+  apply engine_call_inv in E0. destruct E0 as (s0 & k0 & -> & Ep0 & Em0 & _ & Hk0 & Hk0l & _ & _ & ->).
+  apply engine_call_inv in E1. destruct E1 as (s1 & k1 & -> & Ep1 & Em1 & _ & Hk1 & Hk1l & _ & _ & ->).
+  pose proof Hc as Hcalls.
+  apply quantis_complete_acc in Hcalls; [|unfold plen; rewrite Ep1, Em1, firstn_length; lia].
+  destruct Hcalls as (t00 & t1l & s2' & s3 & rest' & k2' & k3 & _ & _ & _ & _ & _ & _ & _ & _ & _ & _ & ->).
+  apply quantis_complete_acc_minus in Hc.
+  destruct Hc as (s2 & rest & k2 & -> & Hp0 & Hk2 & Hl0 & Hstop & HL).
+  cbn [app] in Hhon.
+  apply end_is_R1_spec in ER0 as (pre0 & l0 & El0 & Hl0R).
+  destruct s0 as [|g0 r0]; [cbn in Hk0l; lia|].
+  assert (Hg0 : ford g0 = ford f10) by (apply (Hhon 0%nat _ _ g0 eq_refl eq_refl eq_refl)).
+  (* the one-step path of [0-] has two frames *)
+  destruct k0 as [|[|k0]]; [lia| |].
+  { exfalso. rewrite Ep0 in El0. cbn [firstn] in El0. destruct pre0 as [|? [|]]; try discriminate.
+    injection El0 as <-. lia. }
+  assert (k0 = 0%nat) by lia. subst k0.
+  destruct r0 as [|H0 r0]; [cbn in Hk0l; lia|].
+  cbn [firstn] in Ep0. rewrite Ep0 in El0, Hp0.
+  assert (l0 = H0).
+  { change [g0; H0] with ([g0] ++ [H0]) in El0. apply app_inj_tail in El0. symmetry. apply El0. }
+  subst l0. cbn [tl] in Hp0.
+  (* the backward run was stopped by an interface: its container had room left *)
+  assert (Hlen0 : plen (sp_path p0) = (k2 + 1)%nat).
+  { unfold plen. rewrite Hp0, app_length, rev_length, firstn_length. cbn [length]. lia. }
+  assert (Hst : stops_at (e_i0 e0) (e_i2 e0) s2 k2) by (apply Hstop; lia).
+  pose proof Hst as (_ & Hpre & _).
+  destruct (stops_at_split _ _ _ _ Hst) as (lastf & _ & Hcr & Hf & Hlen).
+  rewrite Hf, rev_app_distr in Hp0. cbn [rev app] in Hp0.
+  set (mid := rev (firstn (k2 - 1) s2)) in *.
+  assert (Hmidlen : length mid = (k2 - 1)%nat) by (unfold mid; rewrite rev_length; exact Hlen).
+  assert (Hor : orders (sp_path p0) = ford lastf :: map ford mid ++ [ford H0]).
+  { unfold orders. rewrite Hp0. cbn [map]. rewrite map_app. reflexivity. }
+  exists (ford lastf), (map ford mid), (ford H0).
+  split; [exact Hor|].
+  split; [intros E; apply (f_equal (@length Z)) in E; rewrite map_length, Hmidlen in E; cbn in E; lia|].
+  apply crossedb_true in Hcr.
+  split; [exact Hcr|].
+  split.
+  - intros HscL. specialize (HL HscL). apply (has_L_start _ _ _ _ Hord Hor) in HL.
+    destruct Hcr as [Hcr|Hcr]; [|exact Hcr]. exfalso. apply HL. unfold classify.
+    destruct (Z.leb_spec (ford lastf) (e_i0 e0)); [reflexivity|lia].
+  - split; [|exact Hl0R].
+    intros o Ho. apply in_map_iff in Ho. destruct Ho as (f & <- & Hf'). apply crossedb_false, Hpre.
+    unfold mid in Hf'. apply in_rev in Hf'. exact Hf'.
+Qed.
+
+(* ... in particular the new [0-] path starts on a side its own ensemble's start condition allows *)
+Theorem quantis_start_cond e0 e1 b0 b1 old0 old1 streams draws p0 p1 st calls nd :
+  quantis_swap_zero vpot_of expf e0 e1 b0 b1 old0 old1 streams draws = Out true p0 p1 st calls nd ->
+  first_frame_honest streams calls ->
+  e_i0 e0 <= e_i1 e0 <= e_i2 e0 ->
+  exists a rest, orders (sp_path p0) = a :: rest /\
+    (a < e_i0 e0 /\ e_scL e0 = true \/ e_i2 e0 < a).
+Proof.
+  intros H Hh Ho.
+  destruct (quantis_swap_valid_minus _ _ _ _ _ _ _ _ _ _ _ _ _ H Hh Ho) as (a & mid & b & Hor & _ & Hout & Hsc & _).
+  exists a, (mid ++ [b]). split; [exact Hor|].
+  destruct Hout as [Hl|Hr]; [|right; exact Hr].
+  destruct (e_scL e0) eqn:E; [left; split; [exact Hl|reflexivity]|right; apply Hsc; reflexivity].
+Qed.
+
+End QV.
+
+(* ------------------------------------------------------------------ start condition "L" alone *)
+(* Both moves only test the finished new [0-] path for a FORBIDDEN "L" ("L" not in start_cond and "L" in
+   check_interfaces(...)[:2]).  With a start condition of [0-] that is "L" alone (finite lambda_-1; not a
+   set-up infretis creates itself: initiate_ensembles gives "R" or ["L", "R"]) a new [0-] path that starts on
+   the RIGHT of lambda_0 is accepted by both.  Witness: interfaces (0, 1, 2) / (2, 2, 5), old paths
+   -1 1 3 / 0 3 1, backward run 0 3: accepted new [0-] path 3 0 3. *)
+Module StartL.
+Definition fr (tag o : Z) : frame := mkF o tag false 0.
+Definition e0 : ens := mkEns 0 1 2 true false Msh 15 None false.
+Definition e1 : ens := mkEns 2 2 5 true false Msh 15 None false.
+Definition old0 : spath := mkSP (mkP [fr 100 (-1); fr 101 1; fr 102 3] 15 0) ACC 1.
+Definition old1 : spath := mkSP (mkP [fr 200 0; fr 201 3; fr 202 1] 15 0) ACC 1.
+Definition streams : list (list frame) :=
+  [ [mkF 0 1000 true 0; mkF 3 1001 true 0]; [mkF 3 2000 false 0; mkF 1 2001 false 0] ].
+Definition qstreams : list (list frame) :=
+  [ [mkF 0 1000 false 0; mkF 3 1001 false 0]; [mkF 1 2000 false 0; mkF 3 2001 false 0];
+    [mkF 0 3000 true 0; mkF 3 3001 true 0]; [mkF 3 4000 false 0; mkF 1 4001 false 0] ].
+End StartL.
+
+Lemma start_cond_L_only_refuted :
+  e_scL StartL.e0 = true /\ e_scR StartL.e0 = false /\ e_i0 StartL.e0 <= e_i1 StartL.e0 <= e_i2 StartL.e0 /\
+  minus_valid StartL.e0 (sp_path StartL.old0) /\ plus_valid StartL.e1 (sp_path StartL.old1) /\
+  (exists sp0 sp1 calls,
+     retis_swap_zero Limits.dumpf StartL.e0 StartL.e1 StartL.old0 StartL.old1 StartL.streams [] = Out true sp0 sp1 ACC calls 0 /\
+     first_frame_honest StartL.streams calls /\
+     orders (sp_path sp0) = [3; 0; 3] /\ e_i2 StartL.e0 < 3) /\
+  (exists p0 p1 calls,
+     quantis_swap_zero Limits.vpot (fun _ => 1%Q) StartL.e0 StartL.e1 1 1 StartL.old0 StartL.old1 StartL.qstreams [(1 # 2)%Q]
+       = Out true p0 p1 ACC calls 1 /\
+     first_frame_honest StartL.qstreams calls /\
+     orders (sp_path p0) = [3; 0; 3] /\ e_i2 StartL.e0 < 3).
+Proof.
+  split; [reflexivity|]. split; [reflexivity|]. split; [vm_compute; split; discriminate|].
+  split.
+  { exists (StartL.fr 100 (-1)), [StartL.fr 101 1], (StartL.fr 102 3).
+    split; [reflexivity|]. split; [discriminate|]. split; [reflexivity|]. split; [discriminate|].
+    split; [|vm_compute; discriminate]. intros f [<-|[]]. reflexivity. }
+  split.
+  { exists (StartL.fr 200 0), [StartL.fr 201 3], (StartL.fr 202 1).
+    split; [reflexivity|]. split; [discriminate|]. split; [reflexivity|]. intros f [<-|[]]. reflexivity. }
+  split.
+  - eexists _, _, _. split; [vm_compute; reflexivity|]. split; [|split; [reflexivity|reflexivity]].
+    intros [|[|k]] c s g Hc Hs Hg; cbn in Hc, Hs; try (destruct k; discriminate);
+      injection Hc as <-; injection Hs as <-; injection Hg as <-; reflexivity.
+  - eexists _, _, _. split; [vm_compute; reflexivity|]. split; [|split; [reflexivity|reflexivity]].
+    intros [|[|[|[|k]]]] c s g Hc Hs Hg; cbn in Hc, Hs; try (destruct k; discriminate);
+      injection Hc as <-; injection Hs as <-; injection Hg as <-; reflexivity.
+Qed.
